@@ -467,6 +467,8 @@ def c10_job(chk, rng, i):
     p["trail"] = 15
     p["bol"] = 20
     p["scs"] = rng.choice([0, 1, 2, 3])
+    if i % 9 == 4:
+        p["scs"] = rng.rint(41, 55)     # beyond the initial allocation of the per-condition arrays
     g, case = base_case(chk, rng, p)
     nsc = len(case["scs"])
     nsrc = rng.choice([1, 2, 3, 4, 5])
@@ -553,12 +555,20 @@ def c10_job(chk, rng, i):
             r["act"] = [("if", k0 + n_, 100, 40, [("x", ("gcreate", s_, src, 0)),
                                                    ("x", ("gpush", s_))])] + list(r["act"])
         case["wrap"] = [("pop",)] * 40
+    if case["eofs"] and i % 3 == 1:
+        # the last pattern rule has a '|' action, so it shares the action of the <<EOF>> rule
+        # that follows it; its text never occurs in the inputs (which are already made)
+        e0 = case["eofs"][0]
+        case["rules"].append({"scs": e0["scs"], "bol": False, "pat": ("str", b"\x7f\x7e\x7f"),
+                              "trail": None, "act": "|"})
     fl = rotate(i, FLAV3)
     tb = rotate(i // 3, ["", "-Cem", "-C", "-Cfe", "-CFe", "-Ca"])
     cfg = {"flavour": fl, "flexargs": lib.tables_args(tb, 8),
            "opts": {"interactive": rotate(i // 2, [None, True, False])
                     if not ("f" in tb or "F" in tb) else False}}
     feats = ["nsrc:%d" % nsrc, "eof_style:%d" % style]
+    if len(case["scs"]) > 40:
+        feats.append("scs>40")
     if include_mode:
         feats.append("include_mode")
     return {"case": case, "configs": [cfg], "inputs": inputs, "skip_if": dangerous,
